@@ -59,8 +59,8 @@ func GenTargeted(seed int64, idx int, profile string) (GCase, bool) {
 		"errors":     {famErrors, famSharedHooks, famErrors},
 		"signatures": {famSignatures, famSignatures, famGenerics},
 		"selection":  {famSelection, famSelection, famEmbedded},
-		"imports":    {famImports, famImportNames, famImportNames},
-		"matching":   {famMatching, famCandidates, famCandidates, famImports, famGetterShapes, famImportNames, famGenerics, famPlain, famPlain},
+		"imports":    {famImports, famImportNames, famImportNames, famVisibility},
+		"matching":   {famMatching, famCandidates, famCandidates, famImports, famGetterShapes, famImportNames, famGenerics, famPlain, famPlain, famVisibility},
 		"plain":      {famPlain},
 		"slices":     {famSlices, famSlices},
 		"casefold":   {famCaseFlip, famCandidates},
@@ -68,7 +68,7 @@ func GenTargeted(seed int64, idx int, profile string) (GCase, bool) {
 		"runtime":    {famRuntime},
 		"generics":   {famGenerics, famImportNames},
 		"simple":     {famRefs, famPlain},
-		"mixed":      {famNested, famPerMethodLists, famSharedHooks, famErrors, famSignatures, famImports, famMatching, famSlices, famRefs, famCaseFlip, famCandidates, famGetterShapes, famImportNames, famGenerics},
+		"mixed":      {famNested, famPerMethodLists, famSharedHooks, famErrors, famSignatures, famImports, famMatching, famSlices, famRefs, famCaseFlip, famCandidates, famGetterShapes, famImportNames, famGenerics, famVisibility},
 		"malformed":  {famSharedHooks, famErrors, famConvShapes, famConvShapes, famEmbedded, famEmbedded},
 	}
 	fs, ok := fams[profile]
@@ -1179,6 +1179,32 @@ func famImportNames(t *tgen) {
 	t.files[t.name+"/setup.go"] = sb.String()
 	t.files[t.name+"/types.go"] = local
 	t.files[t.name+"/"+dir+"/m.go"] = ext
+}
+
+// ---- members the generated package cannot refer to although the type they are reached through is its own --------
+
+func famVisibility(t *tgen) {
+	t.feat("family:member-visibility")
+	ext := "package ext\n\ntype Remote struct {\n\tName   string\n\tsecret int\n\tOpen   int\n}\n\nfunc (r Remote) Get() int  { return r.secret }\nfunc (r Remote) peek() int { return r.secret }\n\ntype Opt struct {\n\tInner struct {\n\t\tA int\n\t\tb int\n\t}\n\tK int\n}\n"
+	local := fmt.Sprintf("package %s\n\nimport \"exp/%s/ext\"\n\n// a local type defined over a struct of another package\ntype Local ext.Remote\ntype LP *ext.Remote\ntype D1 struct {\n\tName   string\n\tsecret int\n\tOpen   int\n\tGet    int\n\tpeek   int\n}\ntype DO struct {\n\tInner struct {\n\t\tA int\n\t\tb int\n\t\tc int\n\t}\n\tK int\n}\n// blank fields\ntype B1 struct {\n\tA int\n\t_ int\n\tB string\n\tu int\n}\ntype Own struct {\n\tIn struct {\n\t\ta int\n\t\tB int\n\t}\n}\n", t.name, t.name)
+	var sb strings.Builder
+	sb.WriteString(header(t, fmt.Sprintf("\"exp/%s/ext\"", t.name)))
+	sb.WriteString("var _ ext.Opt\n\ntype Convergen interface {\n")
+	shapes := []string{"FromLocal%d(%sLocal) %sD1", "ToLocal%d(%sD1) %sLocal", "ToOpt%d(%sDO) %sext.Opt", "FromOpt%d(%sext.Opt) %sDO", "Blank%d(%sB1) %sB1",
+		"FromRemote%d(%sext.Remote) %sD1", "ToRemote%d(%sD1) %sext.Remote", "Own%d(%sOwn) %sOwn"}
+	for j := 0; j < 2+t.r.Intn(3); j++ {
+		for _, n := range []string{":getter", ":case:off", ":typecast"} {
+			if t.ch(0.35) {
+				sb.WriteString("\t// " + n + "\n")
+			}
+		}
+		sh := shapes[t.r.Intn(len(shapes))]
+		fmt.Fprintf(&sb, "\t"+sh+"\n", j, t.pick("*", "*", ""), t.pick("*", "*", ""))
+	}
+	sb.WriteString("}\n")
+	t.files[t.name+"/setup.go"] = sb.String()
+	t.files[t.name+"/types.go"] = local
+	t.files[t.name+"/ext/ext.go"] = ext
 }
 
 // ---- instantiated generic types as operands, members and conversion targets ------------------------------------
